@@ -102,8 +102,8 @@ structure DState where
   cfg : Cfg
   lib : Lib
 
-def mkCfg (sgn : Bool) : Cfg :=
-  { sgn := sgn, strSize := Gen.STR_SIZE, sizeofData := Gen.SIZEOF_DATA, sizeofPoly := Gen.SIZEOF_POLY,
+def mkCfg : Cfg :=
+  { strSize := Gen.STR_SIZE, sizeofData := Gen.SIZEOF_DATA, sizeofPoly := Gen.SIZEOF_POLY,
     sizeofPhrase := Gen.SIZEOF_PHRASE, numWords := Gen.NUM_WORDS, langs := Gen.registry }
 
 def langAt (cfg : Cfg) (i : Nat) : Lang := cfg.langs.getD i default
@@ -165,6 +165,7 @@ def runOp (st : DState) (toks : List String) (r : Recorded) : DState × List Str
     let (lib', evs) := crypt cfg env lib b d (unhex pw)
     ({ st with lib := lib' }, emit evs "ok")
   | ["note"] => (st, ["< ok"])
+  | ["norm", _, _] => (st, ["< (utf8proc)"])
   | ["numlangs"] => (st, [s!"< v={cfg.langs.length}"])
   | ["langname", li] =>
     let L := langAt cfg (num li)
@@ -188,18 +189,18 @@ def runOp (st : DState) (toks : List String) (r : Recorded) : DState × List Str
   | ["bdaydec", b] => (st, [s!"< v={birthdayDecode (num b)}"])
   | ["supported", f] => (st, [s!"< v={if featuresSupported lib.reserved (num f) then 1 else 0}"])
   | ["find", li, w] =>
-    (st, ["< v=" ++ (match findWord cfg.sgn (langAt cfg (num li)) (unhex w) with | some i => s!"{i}" | none => "-1")])
+    (st, ["< v=" ++ (match findWord (langAt cfg (num li)) (unhex w) with | some i => s!"{i}" | none => "-1")])
   | ["findx", li, flags, w] =>
     let fl := num flags
     let L := langAt cfg (num li)
     let L' := { L with isSorted := fl / 8 % 2 == 1, hasPrefix := fl / 4 % 2 == 1, hasAccents := fl / 2 % 2 == 1, compose := fl % 2 == 1 }
-    (st, ["< v=" ++ (match findWord cfg.sgn L' (unhex w) with | some i => s!"{i}" | none => "-1")])
+    (st, ["< v=" ++ (match findWord L' (unhex w) with | some i => s!"{i}" | none => "-1")])
   | "pdecode" :: ts =>
-    let det := phraseDecode cfg.sgn cfg.langs (ts.map unhex)
+    let det := phraseDecode cfg.langs (ts.map unhex)
     let idx := if det.status == .ok then " idx=" ++ ",".intercalate (det.idx.map toString) else ""
     (st, [s!"< st={det.status.toNat} lang={optNum det.langOut}{idx}"])
   | "pdecodex" :: li :: ts =>
-    let rr := phraseDecodeExplicit cfg.sgn (langAt cfg (num li)) (ts.map unhex)
+    let rr := phraseDecodeExplicit (langAt cfg (num li)) (ts.map unhex)
     let idx := if rr.1 == .ok then " idx=" ++ ",".intercalate (rr.2.map toString) else ""
     (st, [s!"< st={rr.1.toNat}{idx}"])
   | _ => (st, ["< unknown-op"])
@@ -211,7 +212,7 @@ partial def loop (h : IO.FS.Stream) (out : IO.FS.Stream) (st : DState) (cur : Op
   if line.startsWith "# cfg" then
     let toks := line.splitOn " "
     out.putStrLn line
-    loop h out { st with cfg := mkCfg (kv toks "sgn" == "1") } none {}
+    loop h out { st with cfg := mkCfg } none {}
   else if line.startsWith "> " then
     out.putStrLn line
     let toks := (line.drop 2).toString.splitOn " "
@@ -235,4 +236,4 @@ partial def loop (h : IO.FS.Stream) (out : IO.FS.Stream) (st : DState) (cur : Op
 def main : IO Unit := do
   let stdin ← IO.getStdin
   let stdout ← IO.getStdout
-  loop stdin stdout { cfg := mkCfg true, lib := Lib.init } none {}
+  loop stdin stdout { cfg := mkCfg, lib := Lib.init } none {}
